@@ -502,11 +502,14 @@ def gen_decision(rng, big=False):
     else:
         mode = rng.randrange(len(modes))
         spacing = rng.choice([s for s in SPACINGS if s >= modes[mode]['min_spacing']])
+        if rng.random() < 0.05:                                                       # malformed: refused at load
+            spacing = max(s for s in [25e9] + SPACINGS if s < modes[mode]['min_spacing'])
     return {'kind': 'decision', 'env': env, 'modes': modes, 'mode': mode, 'spacing': spacing, 'src': src, 'dst': dst,
             'bidir': rng.random() < 0.4, 'tx_power_dbm': rng.choice([None, None, 0, -3, 3, 10]),
             'deltas': [rng.choice([-6, -1, -0.02, -0.01, 0, 0.01, 0.02, 0.5, 3, 9]) for _ in modes],
-            'tabscale': [[rng.choice([0.3, 0.9, 0.999, 1.0, 1.001, 1.2, 3]) for _ in range(3)] for _ in modes],
-            'tabseed': rng.randrange(1 << 30)}
+            'tabscale': [[rng.choice([0.9, 0.999, 1.0, 1.0, 1.001, 1.001, 1.2, 1.2, 3, 3, 3, 10, 10, 10, 10, 10]) for _ in range(3)]
+                         for _ in modes],
+            'tabseed': rng.randrange(1 << 30), 'nosnr': auto and rng.random() < 0.04}
 
 
 def complete_modes(E, case, path, req_probe):
@@ -637,17 +640,22 @@ def drive_decision(case):
     elements.Transceiver.calc_penalties = cp
     rq.create_input_spectral_information = ci
     rq.find_reversed_path = frp
+    orig_call = elements.Transceiver.__call__
+    if case.get('nosnr'):
+        # a receiver that records nothing (snr stays None): the loop must answer NO_COMPUTED_SNR
+        elements.Transceiver.__call__ = lambda self, si: si
     try:
         prop, rev, revprop = rq.compute_path_with_disjunction(E.net, E.eq, rqs, pths)
     finally:
         elements.Transceiver.calc_penalties = orig_cp
         rq.create_input_spectral_information = orig_ci
         rq.find_reversed_path = orig_fr
+        elements.Transceiver.__call__ = orig_call
     obs.update({'reason': getattr(req, 'blocking_reason', None), 'tsp_mode': req.tsp_mode, 'baud_rate': req.baud_rate,
                 'OSNR': req.OSNR, 'tx_osnr': req.tx_osnr, 'offset': req.offset_db, 'bit_rate': req.bit_rate,
                 'iters': iters_log, 'route': [el.uid for el in path], 'evals': evals})
     obs['fwd'] = rx_snapshot(prop[0][-1]) if prop[0] and getattr(prop[0][-1], 'snr_01nm', None) is not None else None
-    obs['rev'] = rx_snapshot(revprop[0][-1]) if revprop[0] else None
+    obs['rev'] = rx_snapshot(revprop[0][-1]) if revprop[0] and not case.get('nosnr') else None
     obs['gains_after'] = {el.uid: el.effective_gain for el in prop[0] if isinstance(el, elements.Edfa)} if prop[0] else {}
     obs['gains_designed'] = designed
     obs['network_untouched'] = designed == {el.uid: el.effective_gain for el in path if isinstance(el, elements.Edfa)}
@@ -673,7 +681,8 @@ def drive_decision(case):
     # ---- is a disagreement between in-loop and fresh figures explained by the persisting clamp?  Re-run the loop with
     # the designed gains restored at the start of every propagation.
     obs['repaired'] = None
-    if case['mode'] is None and len([1 for e in evals if e['dir'] == 'fwd']) > 0 and len(iters_log) > 1:
+    if case['mode'] is None and len([1 for e in evals if e['dir'] == 'fwd']) > 0 and len(iters_log) > 1 \
+            and not case.get('nosnr'):
         p2 = copy.deepcopy(path)
         r2 = copy.deepcopy(pr)
         orig_f = rq.filter_si
@@ -736,7 +745,7 @@ def term_decision(case, obs, observed=False):
                 br, off = obs['iters'][e['it']]
                 seen[(br, off, e['mode'])] = e['snap']
     entries = []
-    for br, off, fr in obs['fresh']:
+    for br, off, fr in ([] if case.get('nosnr') else obs['fresh']):
         for k, m in enumerate(modes):
             if m['baud_rate'] == br and m['min_spacing'] <= case['spacing']:
                 sn = seen.get((br, off, k))
@@ -899,6 +908,10 @@ def own_oracles(ctx, case, obs):
     margin = obs['margin']
     if not obs.get('network_untouched', True):
         ctx.violation('designed_network_modified', 'an amplifier of the designed network changed its gain while the request was evaluated', pub)
+    if case.get('nosnr'):
+        if any(m['min_spacing'] <= case['spacing'] for m in modes) and obs['reason'] != 'NO_COMPUTED_SNR':
+            ctx.violation('no_snr_not_reported', f"receiver without figures but blocking_reason {obs['reason']}", pub)
+        return
     if obs['reason'] in ('NO_FEASIBLE_BAUDRATE_WITH_SPACING',):
         if any(m['min_spacing'] <= case['spacing'] for m in modes):
             ctx.violation('no_baudrate_but_one_fits', 'blocked NO_FEASIBLE_BAUDRATE_WITH_SPACING although a mode fits the spacing', pub)
@@ -952,8 +965,23 @@ def own_oracles(ctx, case, obs):
                 if revblocked != (obs['reason'] == 'MODE_NOT_FEASIBLE') or obs['reason'] not in (None, 'MODE_NOT_FEASIBLE'):
                     ctx.violation('verdict_vs_own_figures', f'selected {fin["format"]}: reverse metric {rmm and rmm[0]} threshold {thr} '
                                   f'but blocking_reason {obs["reason"]}', pub)
-    # an impairment outside the table always blocks
     lm = next(m for m in obs['_lib'] if m['format'] == fin['format'])
+    # the selected mode must be feasible as itself: with its own power offset, not with the one of a sibling mode
+    fw = [e for e in obs['evals'] if e['dir'] == 'fwd']
+    if case['mode'] is None and obs['reason'] != 'NO_FEASIBLE_MODE' and fw:
+        it = obs['iters'][fw[-1]['it']]
+        own = [fin['baud_rate'], float(fin.get('equalization_offset_db', 0) or 0)]
+        if it != own:
+            ctx.count('selected_under_foreign_offset')
+            fr = next((f for b, o, f in obs['fresh'] if [b, o] == own), None)
+            raw = metric_py(rx_g01(fr['raw01'], obs['contrib'], fin['tx_osnr']), pen_py(lm['penalties'], fr))
+            if not tie(raw, thr) and not round(raw, 2) > thr:
+                ctx.violation('selected_mode_infeasible_with_own_offset',
+                              f"{fin['format']} (offset {own[1]} dB) was selected on a propagation made with offset {it[1]} dB "
+                              f"(metric {fm}); propagated with its own offset its metric is {round(raw, 2)} <= threshold {thr}",
+                              pub, detail={'deciding_propagation': it, 'own': own, 'metric_foreign': fm,
+                                           'metric_own': round(raw, 2), 'threshold': thr})
+    # an impairment outside the table always blocks
     for snap in (obs['fwd'], obs['rev']):
         if snap is None:
             continue
@@ -977,7 +1005,7 @@ def judged(case, obs, model):
             if tie(raw, m['OSNR'] + margin):
                 return False
         return True
-    if 'exc' in model:
+    if 'exc' in model or case.get('nosnr'):
         return True
     fresh = {(br, off): fr for br, off, fr in obs['fresh']}
     for (br, off, k) in model['order']:
@@ -1006,7 +1034,16 @@ def is_f6(v):
             and d.get('first_iteration') is False)
 
 
-MATCHERS = {'F6-mode-loop-clamp-persists': is_f6}
+def is_f15(v):
+    """propagate_and_optimize_mode evaluates every mode of a baud rate on the propagation of every offset of that baud
+    rate: the selected mode was judged on a sibling's offset (same baud rate, other offset) and fails with its own."""
+    d = v.get('detail') or {}
+    return (v.get('key') == 'selected_mode_infeasible_with_own_offset' and d.get('deciding_propagation') is not None
+            and d['deciding_propagation'][0] == d['own'][0] and d['deciding_propagation'][1] != d['own'][1]
+            and d['metric_foreign'] > d['threshold'] >= d['metric_own'])
+
+
+MATCHERS = {'F6-mode-loop-clamp-persists': is_f6, 'F15-mode-judged-on-sibling-offset': is_f15}
 
 
 # ------------------------------------------------------------------ run
@@ -1038,7 +1075,10 @@ def load_corpus():
 
 def run(ctx):
     rng = ctx.rng
+    import time
+    t0 = time.time()
     ctx.proof = common.check_props('C13')
+    ctx.extra['t_proof_s'] = round(time.time() - t0, 1)
     ctx.rule = ('(a) random receivers x histories of update_snr calls; (b) random penalty lists x impairment arrays; '
                 '(c) whole decisions: random 2-4 ROADM networks (random amplifier p_max, ROADM add/drop OSNR, PMD, PDL), random '
                 'transceiver libraries of 1-8 modes (shared baud rates, offsets, thresholds within 0.02 dB of the real metric, '
@@ -1049,9 +1089,9 @@ def run(ctx):
     if ctx.replay:
         cases = [json.load(open(ctx.replay))['case']]
     else:
-        cases += [gen_upd(rng) for _ in range(ctx.scale(150, 3000))]
-        cases += [gen_pen(rng) for _ in range(ctx.scale(150, 3000))]
-        cases += [gen_decision(rng) for _ in range(ctx.scale(260, 5000))]
+        cases += [gen_upd(rng) for _ in range(ctx.scale(120, 3000))]
+        cases += [gen_pen(rng) for _ in range(ctx.scale(120, 3000))]
+        cases += [gen_decision(rng) for _ in range(ctx.scale(200, 4000))]
     terms, meta = [], []
     dec = [c for c in cases if c['kind'] == 'decision']
     driven = {}
@@ -1097,7 +1137,10 @@ def run(ctx):
                               case_public(c), detail=lk)
             terms.append(term_decision(c, obs, observed=bool(lk)))
             meta.append((c, impl_line(c, obs), (obs, lk)))
+    ctx.extra['t_gnpy_s'] = round(time.time() - t0 - ctx.extra['t_proof_s'], 1)
+    t1 = time.time()
     lines = common.coq_eval('C13', 'Prelude Model.Verdict Run.C13', terms, per_file=ctx.scale(12, 40))
+    ctx.extra['t_coq_eval_s'] = round(time.time() - t1, 1)
     for (c, impl, extra), line in zip(meta, lines):
         if c['kind'] == 'upd':
             judge_upd(ctx, c, impl, line)
